@@ -168,7 +168,7 @@ func Run(t *simkit.Tape, o *simkit.Outcome, full bool) {
 	// inside one deeply nested evaluation when the others arrive (whatever the
 	// library counts or keeps per evaluation then exists 16-32 times at once)
 	crowd := 0
-	if t.Bool(1, 40) {
+	if t.Bool(1, 60) {
 		crowd = []int{16, 24, 32}[t.Draw(3)]
 		o.Probe("crowd-of-tasks")
 	}
@@ -178,7 +178,7 @@ func Run(t *simkit.Tape, o *simkit.Outcome, full bool) {
 	forced := ""
 	deepIdx := -1
 	if crowd > 0 {
-		k := 8 + t.Draw(20)
+		k := 6 + t.Draw(16)
 		forced = "count(//*" + strings.Repeat("[.//* or not(*)", k) + strings.Repeat("]", k) + ")"
 	}
 	capBase, capStep := t.Draw(len(world.CapacityExprs)), t.Draw(len(world.CapacityExprs)-1)
